@@ -110,8 +110,11 @@ CLAIMED = {
     ),
     'C07': dict(
         text='is_job_group_cancelled / is_job_cancelled / is_batch_cancelled proved equal to the spec predicates over the tables; schedule_job, mark_job_creating, mark_job_started move a job to Creating/Running only when the spec '
-        'predicate says not cancelled and always answer with a result row; jobs_before_insert signals exactly for cancelled groups; cancel_job_group / cancel_batch are idempotent and change grp_cancelled exactly on the subtree.',
-        note=COMMON_NOTE + 'Assumed: each procedure call is atomic (serialisable isolation; justified by the lock-discipline obligations where stated); MySQL NULL/boolean semantics as encoded in vc/sqlvc.py; integer column widths sufficient; SQL cannot be executed in this sandbox so counter-models are rows (VIOLATION ... no-failing-input-found). ' + 'Structural invariant A1 of job_group_self_and_ancestors is a precondition. Python side: _create_job_group (cancelled-ancestor guard before the insert) and cancel_job_group_in_db (every accepted cancellation calls the procedure) are under pyvc contracts; commit_update and the scheduler/canceller queries are listed undecided.',
+        'predicate says not cancelled and always answer with a result row; jobs_before_insert signals exactly for cancelled groups; cancel_job_group / cancel_batch are idempotent and change grp_cancelled exactly on the subtree. '
+        'Python side (embedded SQL evaluated by sqlvc): _create_job_group creates a group only beneath a non-cancelled parent, writes exactly the own row plus every self-and-ancestors row of the parent one level up, and rejects exactly too deep nestings; '
+        'commit_update and _create_batch_update.update refuse a request as cancelled iff the ROOT group of the batch is marked and commit / open an update only when it is not. '
+        'Known finding: is_job_cancelled yields one subquery row per cancelled ancestor (MySQL error 1242 under two cancelled groups on one path).',
+        note=COMMON_NOTE + 'Assumed: each procedure call is atomic (serialisable isolation; justified by the lock-discipline obligations where stated); MySQL NULL/boolean semantics as encoded in vc/sqlvc.py; integer column widths sufficient; SQL cannot be executed in this sandbox so counter-models are rows (VIOLATION ... no-failing-input-found). ' + 'Structural invariants A1 (own row, root has no other ancestor) and A2 (row count of a group = level of its root row + 1) of job_group_self_and_ancestors are preconditions; A2 is shown preserved by _create_job_group. Python side: _create_job_group, cancel_job_group_in_db, commit_update and _create_batch_update.update are under pyvc contracts with their SQL evaluated semantically (fetchone = some row of the result set); the commit gate is advisory (read outside the commit transaction); the scheduler/canceller selection queries are listed undecided.',
         technique='function/procedure contracts against spec predicates on the real SQL text, sqlvc -> z3',
         engine='sqlvc',
         design_ref='7/C07, 2.3',
